@@ -196,7 +196,7 @@ def server_binding_problems():
         def do_POST(self):
             if self.path == '/block':
                 entered.set()
-                release.wait(10)
+                release.wait(90)
             else:
                 second_served.set()
             self.send_response(200)
@@ -236,9 +236,9 @@ def server_binding_problems():
         # fact 4: another connection is served while the first handler is still busy
         s2 = socket.create_connection(('127.0.0.1', port), timeout=10)
         s2.sendall(b'POST /other HTTP/1.1\r\nContent-Length: 0\r\n\r\n')
-        if not second_served.wait(30):
+        if not second_served.wait(20):
             problems.append(('busy-handler-blocks-other-connections', 'second request served concurrently',
-                             'not served within 30 s'))
+                             'not served within 20 s (the first handler stays busy for up to 90 s)'))
             release.set()
         else:
             s2.settimeout(10)
